@@ -186,7 +186,7 @@ theorem reads_skipObjArr (c : Cfg) (o : Obj) (h : o.Fits c) (hbs : isArr o.tid =
       unfold isInt32 at this; omega
     have hnn : ¬ (byteSize o.elems < 0) := by rw [hlen]; omega
     simp only [hnn, if_false]
-    exact Reads.seekExact _ _ hlen
+    exact Reads.skipBytesExact c _ _ hlen
   · simp only [harr, Bool.false_eq_true, if_false] at h ⊢
     obtain ⟨sz, hsz, hlen, hcap, hmax⟩ := h
     simp only [hsz]
@@ -199,7 +199,7 @@ theorem reads_skipObjArr (c : Cfg) (o : Obj) (h : o.Fits c) (hbs : isArr o.tid =
     have hg : decide ((sz : Int) * (o.count : Int) ≤ INT_MAX) = true := by simpa using hmax
     rw [hg]
     refine Reads.nil_bind (Reads.guardTrue _) ?_
-    apply Reads.seekExact
+    apply Reads.skipBytesExact
     rw [flatMap_length sz (swapElem c) (swapElem_length c) o.elems hlen]
     simp only [Obj.count]; push_cast; rw [Int.mul_comm]
 
